@@ -243,7 +243,7 @@ theorem get_put (db : Db) (k k' : Bytes) (e : Entry) : (db.put k e).get k' = if 
   · have : ¬ k = k' := fun h => hk h.symm
     simp [hk, this]
 
-theorem checkTTL_cases (db : Db) (now : Int) (k : Bytes) : (checkTTL db now k).1 = db ∨ (checkTTL db now k).1 = db.del k := by
+theorem checkTTL_cases_s (db : Db) (now : Int) (k : Bytes) : (checkTTL db now k).1 = db ∨ (checkTTL db now k).1 = db.del k := by
   unfold checkTTL
   split
   · split
@@ -252,8 +252,8 @@ theorem checkTTL_cases (db : Db) (now : Int) (k : Bytes) : (checkTTL db now k).1
   · simp
 
 /-- what `checkTTL` leaves under any key was there before -/
-theorem checkTTL_get {db : Db} {now : Int} {k k' : Bytes} {e : Entry} (h : (checkTTL db now k).1.get k' = some e) : db.get k' = some e := by
-  rcases checkTTL_cases db now k with hc | hc
+theorem checkTTL_get_s {db : Db} {now : Int} {k k' : Bytes} {e : Entry} (h : (checkTTL db now k).1.get k' = some e) : db.get k' = some e := by
+  rcases checkTTL_cases_s db now k with hc | hc
   · rwa [hc] at h
   · rw [hc, get_del] at h
     split at h
@@ -262,7 +262,7 @@ theorem checkTTL_get {db : Db} {now : Int} {k k' : Bytes} {e : Entry} (h : (chec
 
 /-- if the key is still there after `checkTTL`, nothing was deleted -/
 theorem checkTTL_present {db : Db} {now : Int} {k : Bytes} {e : Entry} (h : (checkTTL db now k).1.get k = some e) : (checkTTL db now k).1 = db := by
-  rcases checkTTL_cases db now k with hc | hc
+  rcases checkTTL_cases_s db now k with hc | hc
   · exact hc
   · rw [hc, get_del] at h; simp at h
 /-! ### (1) the invariant over programs -/
@@ -272,7 +272,7 @@ def DbOk (db : Db) : Prop := ∀ k e s last, db.get k = some e → e.val = .stre
 theorem DbOk_nil : DbOk [] := by intro k e s last h; simp [Db.get] at h
 
 theorem DbOk_checkTTL {db : Db} (h : DbOk db) (now : Int) (k : Bytes) : DbOk (checkTTL db now k).1 :=
-  fun k' e s last hg hv => h k' e s last (checkTTL_get hg) hv
+  fun k' e s last hg hv => h k' e s last (checkTTL_get_s hg) hv
 
 theorem DbOk_setVal {db : Db} (h : DbOk db) (k : Bytes) (s : List StreamEntry) (last : StreamId) (hs : StreamOk s last) :
     DbOk (db.setVal k (.stream s last)) := by
@@ -580,7 +580,7 @@ theorem xrange_missing_creates_nothing (env : Env) (db : Db) (c k sB eB : Bytes)
     (hg : getStream (checkTTL db env.now k).1 k = none) :
     cmdXRange env db (c :: k :: sB :: eB :: opts) = (arrOf [], (checkTTL db env.now k).1) ∧
     (checkTTL db env.now k).1.get k = none ∧ ∀ k' e, (checkTTL db env.now k).1.get k' = some e → db.get k' = some e := by
-  refine ⟨?_, getStream_none_get hg, fun k' e h => checkTTL_get h⟩
+  refine ⟨?_, getStream_none_get hg, fun k' e h => checkTTL_get_s h⟩
   unfold cmdXRange
   simp only [hs, he, hv1, hv2, hc, Bool.false_eq_true, if_false]
   simp only [hg]
@@ -598,7 +598,7 @@ theorem xadd_nomkstream_missing (env : Env) (db : Db) (c k : Bytes) (rest : List
     (hg : getStream (checkTTL db env.now k).1 k = none) :
     cmdXAdd env db (c :: k :: rest) = (nil, (checkTTL db env.now k).1) ∧ (checkTTL db env.now k).1.get k = none ∧
     ∀ k' e, (checkTTL db env.now k).1.get k' = some e → db.get k' = some e := by
-  refine ⟨?_, getStream_none_get hg, fun k' e h => checkTTL_get h⟩
+  refine ⟨?_, getStream_none_get hg, fun k' e h => checkTTL_get_s h⟩
   unfold cmdXAdd
   simp only [hp, hlen, hl, hf, hz, Bool.false_eq_true, if_false]
   simp only [hg, hn, if_true]
